@@ -207,6 +207,10 @@ func (c *Ctx) log2Smear() {
 	if f == nil {
 		return
 	}
+	if stdBitLen(f) {
+		c.ok(R, "minBitsRequired smears with shifts 1,2,4,8,16,32", f.Pos(), "no smear: the bit length comes from math/bits.Len64")
+		return
+	}
 	var sh []int
 	allInstrs(f, func(_ *ssa.BasicBlock, in ssa.Instruction) {
 		or, ok := in.(*ssa.BinOp)
